@@ -33,6 +33,7 @@ def errClass : Err → String
   | .unexpectedEOF => "ueof"
   | .badMember | .badHex => "other"
   | .unsupportedDataType => "datatype"
+  | .nestingTooDeep => "toodeep"
 
 def showOutcome (r : R (G × Nat)) : String :=
   match r with
@@ -84,10 +85,13 @@ where
   judgeVal (v : GVal UInt64) (hex : String) (um st : Toks) : String :=
       match v with
       | .val g =>
-        -- property: both decoders return the canonical value and the srid that was written
-        let want := showOutcome (.ok (canon g, srid))
+        -- property: both decoders return the canonical value and the srid that was written — when the
+        -- collections of the value are nested no deeper than MaxCollectionDepth; ErrNestingTooDeep beyond
+        let deep := collDepth g > Generated.Params.wkb_MaxCollectionDepth
+        let want := if deep then "err toodeep" else showOutcome (.ok (canon g, srid))
         if " ".intercalate um != want then "propfail unmarshal-roundtrip"
         else if " ".intercalate st != want then "propfail stream-roundtrip"
+        else if deep then "ok coll-too-deep"
         else (match g with | .collection _ => "ok coll" | .point _ => "ok point" | _ => "ok geom")
       | _ => if hex != "empty" then "propfail nil-encodes-to-bytes" else "ok triv-nil"
 
@@ -137,7 +141,7 @@ def handleSeq (inp out : Toks) : String :=
       match fuel with
       | 0 => acc
       | fuel+1 =>
-        match decodeStream s.length s with
+        match decodeStream Generated.Params.wkb_MaxCollectionDepth s with
         | .ok (g, srid, rest) => dec fuel rest (acc ++ [showOutcome (.ok (g, srid))])
         | .err e => acc ++ ["err " ++ errClass e]
         | .panic _ => acc ++ ["panic"]
@@ -360,7 +364,17 @@ def bigGeom (shape : String) (n : Nat) (base : UInt64) : Option G :=
   | "MLSL" => some (.multiLineString [pts 0 n, pts n 2])
   | "MPGR" => some (.multiPolygon [[pts 0 n, pts n 1], [pts (n+1) 2]])
   | "CLS" => some (.collection [.lineString (pts 0 n), .point (pt n), .polygon [pts (n+1) n]])
+  -- n collection levels around one point / with a sibling point after the inner collection at every level
+  | "NEST" => some (nest false n)
+  | "NESTW" => some (nest true n)
   | _ => none
+where
+  nest (wide : Bool) : Nat → G
+    | 0 => .point ⟨base, base + 1⟩
+    | 1 => .collection [.point ⟨base, base + 1⟩]
+    | k+2 =>
+      let sib : Pt UInt64 := ⟨base + 2 * UInt64.ofNat (k + 1), base + 2 * UInt64.ofNat (k + 1) + 1⟩
+      .collection (nest wide (k+1) :: (if wide then [.point sib] else []))
 
 def kindTok : G → String
   | .point _ => "P" | .multiPoint _ => "MP" | .lineString _ => "LS" | .ring _ => "R"
@@ -388,9 +402,9 @@ def handleBig (inp out : Toks) : String :=
     let (bt, _) ← tok i
     let base ← hexToNat? bt
     let g ← bigGeom shape n (UInt64.ofNat base)
-    pure (o, srid, n, g)) with
+    pure (shape, o, srid, n, g)) with
   | none => "bad input"
-  | some (o, srid, n, g) =>
+  | some (shape, o, srid, n, g) =>
     if out == ["panic"] then "propfail panic" else
     let segs := (splitSemi out).map (" ".intercalate ·)
     if segs.any (· == "panic") then "propfail panic" else
@@ -404,6 +418,13 @@ def handleBig (inp out : Toks) : String :=
     fin <|
     match segs with
     | _head :: um :: st :: sc =>
+      -- beyond MaxCollectionDepth the decoders must refuse (the scanners into `any` / `C` with them)
+      if collDepth g > Generated.Params.wkb_MaxCollectionDepth then
+        (if um != "err toodeep" then "propfail unmarshal-too-deep-accepted " ++ um
+         else if st != "err toodeep" then "propfail stream-too-deep-accepted " ++ st
+         else if sc.head? != some "err toodeep" then "propfail scan-too-deep-accepted"
+         else "ok nest-too-deep")
+      else
       let want := digest (.ok (canon g, srid))
       if um != want then "propfail unmarshal-roundtrip large " ++ um
       else if st != want then "propfail stream-roundtrip large " ++ st
@@ -412,6 +433,7 @@ def handleBig (inp out : Toks) : String :=
           | some v => digest (.ok (v, srid))
           | none => "err incorrect"
         if sc != wants then "propfail scan-coercion large"
+        else if shape.startsWith "NEST" then (if n + 100 > Generated.Params.wkb_MaxCollectionDepth then "ok nest-at-limit" else "ok nest")
         else if n > 10000 then "ok large-points" else if n > 100 then "ok large-multi" else "ok at-cap"
     | _ => "bad output"
 
